@@ -251,3 +251,40 @@ Proof. intros Hnd b. unfold b. rewrite set_velocity_rhs_writes. split; [|split].
 (* static mode: nothing is written *)
 Theorem rhs_static nrows vel : set_velocity_rhs nrows [] vel = zeros nrows.
 Proof. reflexivity. Qed.
+
+(* ================================================================== similarity transforms (C06) *)
+Local Open Scope R_scope.
+Definition rot (c s : R) (p : R * R) : R * R := (c * fst p - s * snd p, s * fst p + c * snd p).
+
+(* the stated orientation rule commutes with every rotation ... *)
+Theorem oriented_tangent_rotation c s ux uy dx dy : c * c + s * s = 1 ->
+  oriented_tangent ROps (fst (rot c s (ux, uy))) (snd (rot c s (ux, uy))) (fst (rot c s (dx, dy))) (snd (rot c s (dx, dy)))
+  = rot c s (oriented_tangent ROps ux uy dx dy).
+Proof. intros H. unfold oriented_tangent, rot. simpl.
+  replace (- (s * ux + c * uy) * (c * dx - s * dy) + (c * ux - s * uy) * (s * dx + c * dy)) with ((c * c + s * s) * (- uy * dx + ux * dy)) by ring.
+  rewrite H, Rmult_1_l. unfold Rltb. destruct (Rlt_dec (- uy * dx + ux * dy) 0); simpl; f_equal; ring. Qed.
+(* ... with every positive scaling ... *)
+Theorem oriented_tangent_scale k ux uy dx dy : 0 < k ->
+  oriented_tangent ROps (k * ux) (k * uy) (k * dx) (k * dy) = (k * fst (oriented_tangent ROps ux uy dx dy), k * snd (oriented_tangent ROps ux uy dx dy)).
+Proof. intros Hk. unfold oriented_tangent. simpl.
+  replace (- (k * uy) * (k * dx) + k * ux * (k * dy)) with (k * k * (- uy * dx + ux * dy)) by ring.
+  unfold Rltb. assert (Hkk : 0 < k * k) by nra.
+  destruct (Rlt_dec (- uy * dx + ux * dy) 0) as [Hn|Hn]; destruct (Rlt_dec (k * k * (- uy * dx + ux * dy)) 0) as [Hm|Hm]; simpl; try (f_equal; ring); exfalso; nra. Qed.
+(* ... and with reflections (x, y) -> (x, -y), unless the first segment is exactly radial *)
+Theorem oriented_tangent_reflection ux uy dx dy : - uy * dx + ux * dy <> 0 ->
+  oriented_tangent ROps ux (- uy) dx (- dy) = (fst (oriented_tangent ROps ux uy dx dy), - snd (oriented_tangent ROps ux uy dx dy)).
+Proof. intros Hnz. unfold oriented_tangent. simpl.
+  replace (- - uy * dx + ux * - dy) with (- (- uy * dx + ux * dy)) by ring. unfold Rltb.
+  destruct (Rlt_dec (- uy * dx + ux * dy) 0); destruct (Rlt_dec (- (- uy * dx + ux * dy)) 0); simpl; try (f_equal; ring); exfalso; lra. Qed.
+
+(* a rotation of a junction's two equations preserves the squared residual: minimisers with zero multiplier are rotation invariant *)
+Theorem rotation_preserves_sqnorm c s a b : c * c + s * s = 1 -> fst (rot c s (a, b)) * fst (rot c s (a, b)) + snd (rot c s (a, b)) * snd (rot c s (a, b)) = a * a + b * b.
+Proof. intros H. unfold rot. simpl. replace ((c * a - s * b) * (c * a - s * b) + (s * a + c * b) * (s * a + c * b)) with ((c * c + s * s) * (a * a + b * b)) by ring. rewrite H. ring. Qed.
+(* ... but the multiplier enters every x- and y-equation with coefficient one: the pair (1,1) is not rotation invariant (D3) *)
+Theorem multiplier_column_not_covariant : exists c s, c * c + s * s = 1 /\ rot c s (1, 1) <> (1, 1).
+Proof. exists 0, 1. split; [ring|]. unfold rot. simpl. intros H. inversion H. lra. Qed.
+
+(* adimensional velocities: dividing by the mean speed removes a common positive factor (time unit or length unit) *)
+Theorem adimensional_ratio_invariant k v m : 0 < k -> m <> 0 -> (k * v) / (k * m) = v / m.
+Proof. intros Hk Hm. field. split; lra. Qed.
+Local Close Scope R_scope.
